@@ -15,7 +15,8 @@ Helper lemmas for C11, part 14: WHICH errors `resolveIdentities` reports, defect
 namespace Goyang.Lemmas.Identity
 open Goyang.Model Goyang.Model.Identity
 open Goyang.Spec.Identity (Reach names parts graph Graph Derives survivorGraph registrations survivors
-  undefinedBaseClasses)
+  undefinedBaseClasses undefinedBases derivedDirectly derived derivedTable cycleOf cycleReported unreportedCycle
+  unreportedBase judgeReports cycleClass locatedAt closure Verdict)
 
 /-- A failing `findIdentityBase` reports one of the three undefined-base classes at `Source(root)`
 (the "crash" branch is dead: imports resolve in the module table, which holds modules only). -/
@@ -227,5 +228,224 @@ theorem resolveIdentities_reports (o : Oracle) (ho : o.Valid) (r : Registry) (lk
       unfold cycleErr at hce
       obtain ⟨e', _, rfl⟩ := Option.map_eq_some_iff.mp hce
       simp [undefinedBaseClasses, Err.at_] at hcls
+
+/-! ### the executable verdict `judgeReports` -/
+
+theorem locatedAt_at (s : Stmt) (c : String) : locatedAt (Err.at_ s c) s = true := by
+  simp [locatedAt, Err.at_]
+
+theorem mem_undefinedBases {r : Registry} {G : Graph} {stmts : List Surv} {u : Spec.Identity.Vertex × Mod × String} :
+    u ∈ undefinedBases r G stmts ↔ ∃ x ∈ stmts, ∃ b ∈ x.2.2.all "base", u = (x.1, x.2.1, b.arg) ∧
+      ¬ ∃ t, names r x.2.1 b.arg = some t ∧ t ∈ G.verts := by
+  unfold undefinedBases
+  simp only [List.mem_flatMap, List.mem_filterMap]
+  constructor
+  · rintro ⟨⟨v, m, s⟩, hx, b, hb, hu⟩
+    simp only at hu
+    refine ⟨(v, m, s), hx, b, hb, ?_⟩
+    split at hu
+    · rename_i t hn
+      split at hu
+      · cases hu
+      · rename_i ht
+        cases hu
+        exact ⟨rfl, by rintro ⟨t', ht', hm⟩; rw [hn] at ht'; cases ht'; exact ht hm⟩
+    · rename_i hn
+      cases hu
+      exact ⟨rfl, by rintro ⟨t', ht', _⟩; rw [hn] at ht'; cases ht'⟩
+  · rintro ⟨⟨v, m, s⟩, hx, b, hb, rfl, hno⟩
+    refine ⟨(v, m, s), hx, b, hb, ?_⟩
+    simp only
+    split
+    · rename_i t hn
+      rw [if_neg (fun hm => hno ⟨t, hn, hm⟩)]
+    · rfl
+
+/-- The dangling bases of the survivors' graph are the undefined base statements of the surviving
+statements. -/
+theorem survivor_dangling {r : Registry} {G : Graph} (h : survivorGraph r = some G) {R : List Surv}
+    (hR : registrations r = some R) (v : Spec.Identity.Vertex) (a : String) :
+    (v, a) ∈ G.dangling ↔ ∃ m, (v, m, a) ∈ undefinedBases r G (survivors R) := by
+  unfold survivorGraph at h
+  split at h
+  · rename_i ps R' hps hR'
+    rw [hR] at hR'
+    cases hR'
+    simp only [Option.some.injEq] at h
+    subst h
+    show (v, a) ∈ (survBases r (survivors R)).filterMap _ ↔ _
+    simp only [List.mem_filterMap, mem_survBases, mem_undefinedBases]
+    constructor
+    · rintro ⟨x, ⟨y, hy, base, hbase, rfl⟩, hx⟩
+      simp only at hx
+      refine ⟨y.2.1, y, hy, base, hbase, ?_⟩
+      split at hx
+      · rename_i b' hb'
+        split at hx
+        · cases hx
+        · rename_i hmem
+          cases hx
+          exact ⟨rfl, by rintro ⟨t, ht, hm⟩; rw [hb'] at ht; cases ht; exact hmem hm⟩
+      · rename_i hnone
+        cases hx
+        exact ⟨rfl, by rintro ⟨t, ht, _⟩; rw [hnone] at ht; cases ht⟩
+    · rintro ⟨m, y, hy, base, hbase, hu, hno⟩
+      simp only [Prod.mk.injEq] at hu
+      obtain ⟨rfl, rfl, rfl⟩ := hu
+      refine ⟨(y.1, base.arg, names r y.2.1 base.arg), ⟨y, hy, base, hbase, rfl⟩, ?_⟩
+      simp only
+      split
+      · rename_i t hn
+        rw [if_neg (fun hm => hno ⟨t, hn, hm⟩)]
+      · rfl
+  · cases h
+
+theorem mem_derivedDirectly (G : Graph) (v w : Spec.Identity.Vertex) :
+    w ∈ derivedDirectly G v ↔ (w, v) ∈ G.edges := by
+  unfold derivedDirectly
+  simp only [List.mem_map, List.mem_filter]
+  constructor
+  · rintro ⟨⟨a, b⟩, ⟨h1, h2⟩, rfl⟩
+    have : b = v := by simpa using h2
+    subst this
+    exact h1
+  · intro h
+    exact ⟨(w, v), ⟨h, by simp⟩, rfl⟩
+
+theorem reach_derived {G : Graph} {c y : Spec.Identity.Vertex} (h : Reach (derivedDirectly G) c y) :
+    c = y ∨ Derives G y c := by
+  induction h with
+  | refl a => exact Or.inl rfl
+  | step hb _ ih =>
+    have he := (mem_derivedDirectly G _ _).mp hb
+    rcases ih with rfl | ih
+    · exact Or.inr (Derives.base he)
+    · exact Or.inr (derives_snoc ih he)
+
+theorem derives_reach {G : Graph} {y i : Spec.Identity.Vertex} (hd : Derives G y i) :
+    ∃ c, c ∈ (derivedDirectly G i).eraseDups ∧ Reach (derivedDirectly G) c y := by
+  induction hd with
+  | base h => exact ⟨_, List.mem_eraseDups.mpr ((mem_derivedDirectly G _ _).mpr h), Reach.refl _⟩
+  | step h _ ih =>
+    obtain ⟨c, hc, hr⟩ := ih
+    exact ⟨c, hc, Reach.trans hr (Reach.single ((mem_derivedDirectly G _ _).mpr h))⟩
+
+theorem derives_trans {G : Graph} {a b c : Spec.Identity.Vertex} (h1 : Derives G a b) (h2 : Derives G b c) :
+    Derives G a c := by
+  induction h1 with
+  | base h => exact Derives.step h h2
+  | step h _ ih => exact Derives.step h (ih h2)
+
+/-- `derived G i` holds exactly the vertices derived from `i`. -/
+theorem derived_spec {G : Graph} {i : Spec.Identity.Vertex} {d : List Spec.Identity.Vertex}
+    (h : derived G i = some d) (y : Spec.Identity.Vertex) : y ∈ d ↔ Derives G y i := by
+  unfold derived at h
+  rw [closure_spec _ _ _ _ h y]
+  constructor
+  · rintro ⟨c, hc, hr⟩
+    have hci : (c, i) ∈ G.edges := (mem_derivedDirectly G i c).mp (List.mem_eraseDups.mp hc)
+    rcases reach_derived hr with rfl | hd
+    · exact Derives.base hci
+    · exact derives_snoc hd hci
+  · intro hd
+    obtain ⟨c, hc, hr⟩ := derives_reach hd
+    exact ⟨c, hc, hr⟩
+
+theorem derived_some (G : Graph) (i : Spec.Identity.Vertex) : ∃ d, derived G i = some d := by
+  unfold derived
+  apply closure_some (derivedDirectly G) (G.edges.map (·.1))
+  · intro x _ y hy
+    exact List.mem_map.mpr ⟨(y, x), (mem_derivedDirectly G x y).mp hy, rfl⟩
+  · intro x hx
+    rw [List.mem_eraseDups] at hx
+    exact List.mem_map.mpr ⟨(x, i), (mem_derivedDirectly G i x).mp hx, rfl⟩
+  · have := unv_mono (G.edges.map (·.1)) (ids := []) (ids' := (derivedDirectly G i).eraseDups)
+      (by intro _ h; cases h)
+    rw [unv_nil, List.length_map] at this
+    omega
+
+theorem mapM_option_some {α β : Type} (f : α → Option β) : ∀ (l : List α), (∀ a ∈ l, ∃ b, f a = some b) →
+    ∃ bs, l.mapM f = some bs ∧ ∀ b, b ∈ bs → ∃ a ∈ l, f a = some b := by
+  intro l
+  induction l with
+  | nil => intro _; exact ⟨[], by simp, by intro b hb; cases hb⟩
+  | cons a l ih =>
+    intro h
+    obtain ⟨b, hb⟩ := h a (List.mem_cons_self ..)
+    obtain ⟨bs, hbs, hmem⟩ := ih (fun a' ha' => h a' (List.mem_cons_of_mem _ ha'))
+    refine ⟨b :: bs, by simp [List.mapM_cons, hb, hbs], ?_⟩
+    intro b' hb'
+    rcases List.mem_cons.mp hb' with rfl | hb'
+    · exact ⟨a, List.mem_cons_self .., hb⟩
+    · obtain ⟨a', ha', hf⟩ := hmem b' hb'
+      exact ⟨a', List.mem_cons_of_mem _ ha', hf⟩
+
+/-- The table of derived lists exists, and every row is the list of a vertex. -/
+theorem derivedTable_some (G : Graph) :
+    ∃ T, derivedTable G = some T ∧ ∀ v d, (v, d) ∈ T → derived G v = some d := by
+  unfold derivedTable
+  obtain ⟨T, hT, hmem⟩ := mapM_option_some (fun v => (derived G v).map fun d => (v, d)) G.verts.eraseDups
+    (fun v _ => by obtain ⟨d, hd⟩ := derived_some G v; exact ⟨(v, d), by simp [hd]⟩)
+  refine ⟨T, hT, ?_⟩
+  intro v d hvd
+  obtain ⟨a, _, hf⟩ := hmem (v, d) hvd
+  obtain ⟨d', hd', he⟩ := Option.map_eq_some_iff.mp hf
+  cases he
+  exact hd'
+
+/-- When every cyclic vertex has a statement whose position carries a cycle error, and every
+undefined base statement an undefined-base error at its text, the verdict is "holds". -/
+theorem judgeReports_holds (r : Registry) (G : Graph) (stmts : List Surv) (errs : List Err)
+    (hverts : ∀ v, Derives G v v → ∃ x ∈ stmts, x.1 = v)
+    (hcyc : ∀ x ∈ stmts, Derives G x.1 x.1 → ∃ e ∈ errs, e.cls = cycleClass ∧ locatedAt e x.2.2 = true)
+    (hbase : ∀ u ∈ undefinedBases r G stmts,
+      ∃ e ∈ errs, e.cls ∈ undefinedBaseClasses ∧ locatedAt e u.2.1.stmt = true) :
+    judgeReports r G stmts errs = Verdict.holds := by
+  obtain ⟨T, hT, hrow⟩ := derivedTable_some G
+  have h1 : unreportedCycle T stmts errs = none := by
+    unfold unreportedCycle
+    rw [List.findSome?_eq_none_iff]
+    rintro ⟨v, d⟩ hvd
+    simp only
+    split
+    · rfl
+    · rename_i hc
+      exfalso
+      apply hc
+      simp only [Bool.or_eq_true]
+      by_cases hemp : (cycleOf T v d).isEmpty = true
+      · exact Or.inl hemp
+      · right
+        obtain ⟨w, hw⟩ : ∃ w, w ∈ cycleOf T v d := by
+          cases hl : cycleOf T v d with
+          | nil => rw [hl] at hemp; simp at hemp
+          | cons w _ => exact ⟨w, List.mem_cons_self ..⟩
+        have hw' := hw
+        unfold cycleOf at hw'
+        obtain ⟨hwd, hany⟩ := List.mem_filter.mp hw'
+        obtain ⟨⟨w', d'⟩, hrow', hp⟩ := List.any_eq_true.mp hany
+        simp only [Bool.and_eq_true, beq_iff_eq, List.contains_iff_mem] at hp
+        obtain ⟨rfl, hvd'⟩ := hp
+        have hwv : Derives G w' v := (derived_spec (hrow v d hvd) w').mp hwd
+        have hvw : Derives G v w' := (derived_spec (hrow w' d' hrow') v).mp hvd'
+        have hww : Derives G w' w' := derives_trans hwv hvw
+        obtain ⟨x, hx, hxw⟩ := hverts w' hww
+        obtain ⟨e, he, hecls, heloc⟩ := hcyc x hx (by rw [hxw]; exact hww)
+        unfold cycleReported
+        refine List.any_eq_true.mpr ⟨x, hx, ?_⟩
+        obtain ⟨xv, xm, xs⟩ := x
+        simp only [Bool.and_eq_true, List.contains_iff_mem]
+        subst hxw
+        exact ⟨hw, List.any_eq_true.mpr ⟨e, he, by simp [hecls, heloc]⟩⟩
+  have h2 : unreportedBase r G stmts errs = none := by
+    unfold unreportedBase
+    rw [List.find?_eq_none]
+    rintro ⟨v, m, a⟩ hu
+    obtain ⟨e, he, hecls, heloc⟩ := hbase (v, m, a) hu
+    simp only [Bool.not_eq_true']
+    simp only [Bool.not_eq_false]
+    exact List.any_eq_true.mpr ⟨e, he, by simp [hecls, heloc]⟩
+  unfold judgeReports
+  simp only [hT, h1, h2]
 
 end Goyang.Lemmas.Identity
